@@ -65,10 +65,22 @@ def gen_pom(rng):
     deps = []
 
     def section_before():
-        for name in rng.sample(["modelVersion", "groupId", "artifactId", "version", "properties", "parent", "dependencyManagement"], rng.choice([0, 2, 4])):
+        for name in rng.sample(["modelVersion", "groupId", "artifactId", "version", "properties", "parent", "dependencyManagement", "build", "reporting"], rng.choice([0, 2, 4])):
             x.comment()
             if name == "properties":
                 x.start(name); x.ws(); x.leaf("java.version", "1.8"); x.ws(); x.stop(name)
+            elif name in ("build", "reporting"):
+                # a build / reporting section written ABOVE the dependencies, with a plugin configuration whose elements have
+                # names an HTML reader would treat specially (link, param, meta, base, br, img): XML knows no such thing
+                x.start(name); x.ws(); x.start("plugins"); x.ws(); x.start("plugin"); x.ws()
+                x.leaf("groupId", "org.apache.maven.plugins"); x.ws(); x.leaf("artifactId", "maven-javadoc-plugin"); x.ws()
+                x.start("configuration"); x.ws(); x.start("links"); x.ws()
+                for _ in range(rng.choice([1, 2])):
+                    x.leaf("link", "https://docs.example.org/api/"); x.ws()
+                x.stop("links"); x.ws()
+                for el in rng.sample(["param", "meta", "base", "br", "img", "input", "source"], rng.choice([0, 1, 2])):
+                    x.leaf(el, "v"); x.ws()
+                x.stop("configuration"); x.ws(); x.stop("plugin"); x.ws(); x.stop("plugins"); x.ws(); x.stop(name)
             elif name == "parent":
                 x.start(name); x.ws(); x.leaf("groupId", "org.parent"); x.ws(); x.leaf("artifactId", "p"); x.ws(); x.stop(name)
             elif name == "dependencyManagement":
@@ -107,6 +119,8 @@ def gen_pom(rng):
         x.stop("dependencies")
         x.ws()
     for name in rng.sample(["build", "repositories", "profiles"], rng.choice([0, 1, 2])):
+        if name in x.text:
+            continue
         x.start(name); x.ws()
         if name == "build":
             x.start("plugins"); x.start("plugin"); x.leaf("groupId", "plugin.g"); x.leaf("artifactId", "pl"); x.stop("plugin"); x.stop("plugins"); x.ws()
